@@ -235,6 +235,12 @@ class CallMixin:
                 self.bind_result(q.env, res)
                 from .engine import wf
                 p.assume(wf(res))
+                if 'listsets' in c.get('theory', []):
+                    from . import listsets
+                    for x in ([res] if isinstance(res, VList) else (res.items if isinstance(res, VTuple) else [])):
+                        if isinstance(x, VList) and x.kind in listsets.KINDS:      # read rule (LISTSET/iterate: entry-is-element)
+                            t = fresh('rt', I)
+                            p.assume(z3.ForAll([t], z3.Implies(z3.And(0 <= t, t < x.len), z3.Select(listsets.Elems(x.term()), z3.Select(x.arr, t)))))
             self.old_stack.append(pre)
             try:
                 for i, src in enumerate(c.get('ensures', [])):
@@ -486,4 +492,4 @@ class CallMixin:
 BUILTINS = {'sum', 'len', 'str', 'int', 'float', 'max', 'min', 'abs', 'pow', 'isinstance', 'hasattr', 'list', 'range', 'print'}
 SPECFUNS = {'prev', 'forall', 'exists', 'implies', 'ite', 'old', 'kind', 'value', 'Sum', 'Count', 'iff', 'forall2', 'tok',
             'select', 'has', 'attr', 'store_len', 'nu', 'Tot', 'alloc', 'real', 'SumR', 'opt_is_none', 'opt_val',
-            'has_text', 'ENUM_len', 'rec', 'joined', 'after', 'lam', 'is_list', 'is_int', 'py_int', 'py_head', 'py_tail', 'py_len', 'elems', 'pelems', 'dupfree', 'appended', 'lemma', 'ModelWF', 'unchanged', 'distinct_refs', 'Row', 'LL', 'PL'}
+            'printed_int', 'printed', 'status_code', 'has_text', 'ENUM_len', 'rec', 'joined', 'after', 'lam', 'is_list', 'is_int', 'py_int', 'py_head', 'py_tail', 'py_len', 'elems', 'pelems', 'dupfree', 'appended', 'lemma', 'ModelWF', 'unchanged', 'distinct_refs', 'Row', 'LL', 'PL'}
